@@ -210,7 +210,8 @@ func (fr *Frame) execSelect(st *State, x *ssa.Select) {
 	}
 	fr.assume(st, InRange(idx, IntT(lo), IntT(n)))
 	elems := []Val{scalar(types.Typ[types.Int], idx), scalar(types.Typ[types.Bool], fr.ctx.Fresh("selok", SBool))}
-	for _, s := range x.States {
+	var sends []int
+	for k, s := range x.States {
 		if s.Dir == types.RecvOnly {
 			ct := s.Chan.Type().Underlying().(*types.Chan)
 			v := fr.fresh("selrecv", ct.Elem())
@@ -220,9 +221,21 @@ func (fr *Frame) execSelect(st *State, x *ssa.Select) {
 		} else if s.Send != nil {
 			ct := s.Chan.Type().Underlying().(*types.Chan)
 			fr.chanInv(st, ct.Elem(), fr.val(st, s.Send), True, true, x.Pos())
+			sends = append(sends, k)
 		}
 	}
 	fr.regs[x] = Val{K: KTuple, Elems: elems}
+	// send cases: the "send" hooks fire under the condition that this case was chosen
+	for _, k := range sends {
+		s := x.States[k]
+		saved := st.pc
+		chosen := Eq(idx, IntT(int64(k)))
+		st.pc = fr.ctx.Def("pc", And(saved, chosen))
+		fr.top.hookCond = chosen
+		fr.callHooks(st, "send", []Val{fr.val(st, s.Chan), fr.val(st, s.Send)}, x.Pos())
+		fr.top.hookCond = Term{}
+		st.pc = saved
+	}
 }
 
 // strKey builds the canonical key of a string / byte-slice value.
